@@ -6,14 +6,13 @@
 
 use proptest::prelude::*;
 use serde_json::{json, Value};
-use vmodel::{
-    engine::fingerprint,
+use crate::{
+    engine::{fingerprint, pick},
     refs::{collapse_cr, has_token, is_help_request, ref_classify, ref_frame, ref_tokens, RArg, RefEditor},
     screen::Screen,
     session::{script_text, CmdSet, Config, EnumSet, GroupSet, Op, OutCall, RawSet, Sess, PROMPTS},
 };
 
-use super::common::pick;
 
 #[derive(Clone, Copy, Debug, Default)]
 pub struct Flags {
@@ -412,7 +411,7 @@ fn do_key<S: CmdSet>(x: &mut Ctx<'_, S>, op: &Op, what: &str) -> Result<(), Fail
 fn do_enter<S: CmdSet>(
     x: &mut Ctx<'_, S>,
     pre_line: &[u8],
-    new_calls: &[vmodel::session::Call],
+    new_calls: &[crate::session::Call],
     out: &[u8],
     row0: usize,
     what: &str,
@@ -718,7 +717,7 @@ pub fn case_strategy(o: GenOpts, sets: &'static [&'static str]) -> impl Strategy
 // ------------------------------------------------------------------------------------------------
 // glue used by the per-property checks
 
-use vmodel::engine::{Failure, ShardCtx, Verdict};
+use crate::engine::{Failure, ShardCtx, Verdict};
 
 pub fn run_lockstep_shard(
     ctx: &ShardCtx,
@@ -805,7 +804,7 @@ pub fn expected_dispatch(line: &str, help_on: bool) -> Dispatch {
     }
 }
 
-pub fn check_dispatch(d: &Dispatch, new_calls: &[vmodel::session::Call], what: &str, line: &str) -> Result<(), Fail> {
+pub fn check_dispatch(d: &Dispatch, new_calls: &[crate::session::Call], what: &str, line: &str) -> Result<(), Fail> {
     match d {
         Dispatch::Unspecified => Ok(()),
         Dispatch::None => {
